@@ -3,6 +3,7 @@
 use crate::engine::{Report, Tier};
 use serde_json::Value;
 
+pub mod c01;
 pub mod c03;
 pub mod c04;
 pub mod c05;
@@ -21,6 +22,7 @@ pub type ReplayFn = fn(&Value) -> Result<Option<String>, String>;
 
 pub fn registry() -> Vec<(&'static str, RunFn, &'static str, ReplayFn)> {
     vec![
+        ("C01", c01::run, c01::RULE, c01::replay),
         ("C03", c03::run, c03::RULE, c03::replay),
         ("C04", c04::run, c04::RULE, c04::replay),
         ("C05", c05::run, c05::RULE, c05::replay),
